@@ -256,14 +256,19 @@ def run_case(case, name):
         t0 = time.time()
         # ENDING is transient: the woken worker turns it into ENDED
         while ((sim.run_state.name not in QUIET or sim.replication_state.name == "ENDING" or not worker_idle())
-               and time.time() - t0 < 6.0):
+               and time.time() - t0 < 4.0):
             time.sleep(0.0005)
         if sim.run_state.name not in QUIET or sim.replication_state.name == "ENDING":
-            rec["notes"].append("not quiescent after 6 s: " + sim.run_state.name + "/" + sim.replication_state.name)
+            rec["notes"].append("not quiescent after 4 s: " + sim.run_state.name + "/" + sim.replication_state.name)
+            return False
+        return True
 
+    hung = False
     for c in case["cmds"]:
+        if hung:       # the run thread never came back: do not pile further commands on it
+            break
         r = issue(c)
-        wait_quiet()
+        hung = not wait_quiet()
         if c[0] in ("init", "cleanup", "initbad"):
             subscribe()
         rec["snaps"].append([r, sim.run_state.name, sim.replication_state.name,
